@@ -124,6 +124,7 @@ def run_batch(prop, tier, seed, nworkers=None, run_list=None, hashseed=None, qui
 							summary = rec
 						else:
 							rec['env'] = e
+							rec['worker_prefix'] = [x['run'] for x in got]
 							got.append(rec)
 			if rc != 0 or summary is None or len(got) != len(runs):
 				tail = ''
@@ -163,12 +164,12 @@ def _tmp_root():
 	return tempfile.gettempdir()
 
 
-def replay_in_fresh_interpreter(prop, tier, seed, run, choices, spec, mode='replay', klass=None):
+def replay_in_fresh_interpreter(prop, tier, seed, run, choices, spec, mode='replay', klass=None, prefix=None):
 	tmpdir = tempfile.mkdtemp(prefix=f'gvsim-replay-{prop}-', dir=_tmp_root())
 	try:
 		from gvsim import props
 		mod = props.get(prop)
-		extra = dict(mode=mode, run=run, choices=choices, klass=klass)
+		extra = dict(mode=mode, run=run, choices=choices, klass=klass, prefix=prefix or [])
 		extra.update(getattr(mod, 'WORKER_ARGS', {}))
 		p, out, log = spawn(prop, tier, seed, spec, [], tmpdir, 'replay', extra)
 		rc = p.wait()
@@ -325,8 +326,34 @@ def cmd_check(prop, tier):
 			if confirmed:
 				events = rec.get('events', events)
 				break
+		prefix = []
+		if not confirmed and r.get('worker_prefix'):
+			# The violation depends on state an earlier run left behind in the same worker process (module-level caches,
+			# thread-local buffers ...). Replay = the earlier runs of that worker (regenerated from the seed), then this run.
+			# Shrink the prefix to the shortest suffix that still reproduces (bisection over suffixes).
+			choices, events, digest, v = r['choices'], r.get('events', []), r['digest'], r['violation']
+			full = list(r['worker_prefix'])
+			def ok_with(pref):
+				rec2, err2 = replay_in_fresh_interpreter(prop, tier, seed, r['run'], choices, spec, prefix=pref)
+				return rec2 if (rec2 is not None and rec2.get('violation') and rec2['violation']['klass'] == v['klass']) else None
+			rec = ok_with(full)
+			if rec is not None:
+				lo, hi = 0, len(full)          # invariant: suffix starting at lo reproduces
+				for _ in range(12):
+					if hi - lo <= 1:
+						break
+					mid = (lo + hi) // 2
+					r2 = ok_with(full[mid:])
+					if r2 is not None:
+						lo, rec = mid, r2
+					else:
+						hi = mid
+				prefix = full[lo:]
+				confirmed = True
+				digest = rec['digest']
+				events = rec.get('events', events)
 		path = os.path.join(VERIF, 'replays', f'{prop}-{seed}-{r["run"]}.json')
-		doc = dict(property=prop, seed=seed, run=r['run'], tier=tier, env=env_header(spec), choices=choices,
+		doc = dict(property=prop, seed=seed, run=r['run'], tier=tier, env=env_header(spec), choices=choices, prefix_runs=prefix,
 		           trace=events, violation=v, digest=digest, minimised_from=r.get('original_len', len(r.get('choices', []))),
 		           minimised_to=len(choices), repo_head=repo_head(), replay_confirmed=bool(confirmed))
 		with open(path, 'w') as f:
@@ -357,7 +384,7 @@ def cmd_replay(prop, path):
 	mod = props.get(doc['property'])
 	envs = mod.envs(doc.get('tier', 'quick'))
 	spec = envs[doc['run'] % len(envs)]
-	rec, err = replay_in_fresh_interpreter(doc['property'], doc.get('tier', 'quick'), doc['seed'], doc['run'], doc['choices'], spec)
+	rec, err = replay_in_fresh_interpreter(doc['property'], doc.get('tier', 'quick'), doc['seed'], doc['run'], doc['choices'], spec, prefix=doc.get('prefix_runs') or [])
 	if rec is None:
 		print('HARNESS-ERROR: ' + str(err))
 		return 2
